@@ -121,6 +121,7 @@ def run(prog, chk):
     chk.rule('R08.3', 'dispatch: vtable re-dispatch on the receiver\'s dynamic class for virtual methods only and unconditionally; no vtable for class-reference receivers; '
                       'complete vtable registration; declaring-class context')
     chk.rule('R08.4', 'overloads: exhaustive hierarchy walk, unique-minimum selection with tie detection at every site, cost tables agree (analyser = runtime = documented), static stamps')
+    chk.rule('R08.8', 'generic specialisation: the template\'s own type parameters are bound to the given arguments, overriding any outer binding of the same name')
     chk.rule('R08.6', 'statics: storage reached through the owner found with the field; never copied from the base')
     chk.rule('R08.7', 'phase discipline: function table complete before any evaluation')
     ex, ev = R.ev_method('exec'), R.ev_method('eval')
@@ -129,6 +130,7 @@ def run(prog, chk):
     _destruction(prog, chk, R, ex)
     _dispatch(prog, chk, R, ev)
     _vtable_registration(prog, chk, R)
+    _generic_substitution(prog, chk, R)
     _class_context(prog, chk, R, ex)
     _this_stamps(prog, chk, R, ex)
     _walks(prog, chk, R)
@@ -1140,6 +1142,7 @@ def _resolution_table(prog, chk, R):
             got = Interp(prog, {'findClass': rt_findClass}, max_steps=20000).call_fn_env(fm, [cls_objs[0], name, argv], {'this': Obj()})
         except Unsupported as ex:
             chk.note('overload resolution table not evaluated: %s' % ex)
+            chk.vacuous.append('run-time overload resolution table could not be evaluated (%s)' % ex)
             return
         gtag = got.get('tag') if isinstance(got, Obj) else None
         if gtag != want:
@@ -1173,6 +1176,7 @@ def _resolution_table(prog, chk, R):
             got = Interp(prog, models, max_steps=40000).call_fn_env(fa, [recv, name, [_an_type(a_) for a_ in args]], {'this': Obj()})
         except Unsupported as ex:
             chk.note('analyser resolution table not evaluated: %s' % ex)
+            chk.vacuous.append('analyser overload resolution table could not be evaluated (%s)' % ex)
             evaluated_a = False
             break
         gtag = got.get('tag') if isinstance(got, Obj) else None
@@ -1186,3 +1190,42 @@ def _resolution_table(prog, chk, R):
     chk.ob('R08.4', fm, fm.ln, not bad,
            'run-time overload resolution equals the documented one on %d model hierarchies (levels, overrides, widening, class distance, null, ties); mismatches: %s' % (n, bad[:3]),
            key='resolution:runtime')
+
+
+def _generic_substitution(prog, chk, R):
+    """A specialisation's substitution map binds each of the template's own parameters to the corresponding type argument.  Where
+    the map starts as a copy of the enclosing context's bindings, the own parameter must *replace* an outer binding of the same
+    name (`Entry<K,T>` creating `Box<K>` with `Box` declared `Box<T>`): a non-overwriting insertion (emplace / insert /
+    try_emplace) keeps the outer `T`, and the wrongly typed class is then cached under the right key for the whole program."""
+    n = 0
+    for f in [x for x in R.ev_methods() if x.body]:
+        maps = {v['id']: v for v in SX.walk(f.body, into_lambdas=False) if v['k'] == 'var' and 'map<' in (v.get('type') or '') and 'RuntimeTypeInfo' in (v.get('type') or '')}
+        if not maps:
+            continue
+        for x in SX.walk(f.body, into_lambdas=False):
+            key = val = None
+            how = None
+            w = SX.write_target(x)
+            if w and w[2] == '=' and SX.is_node(SX.strip(w[0])) and SX.strip(w[0]).get('k') == 'index' and SX.strip(SX.strip(w[0])['base']).get('id') in maps:
+                mid, key, val, how = SX.strip(SX.strip(w[0])['base'])['id'], SX.strip(w[0])['i'], w[1], 'assign'
+            elif x['k'] == 'mcall' and SX.is_node(SX.strip(x.get('obj'))) and SX.strip(x['obj']).get('id') in maps and \
+                    SX.short(x.get('callee', '')) in ('emplace', 'insert', 'try_emplace', 'insert_or_assign'):
+                a = SX.real_args(x)
+                mid, key, val, how = SX.strip(x['obj'])['id'], (a[0] if a else None), (a[1] if len(a) > 1 else None), SX.short(x['callee'])
+            if how is None or not SX.is_node(key) or 'typeParameters' not in SX.show(key):
+                continue
+            n += 1
+            init = SX.strip(maps[mid].get('init')) if SX.is_node(maps[mid].get('init')) else None
+            empty_start = init is None or (init.get('k') in ('construct', 'initlist') and not (SX.real_args(init) if init['k'] == 'construct' else init.get('items')))
+            overwriting = how in ('assign', 'insert_or_assign')
+            chk.ob('R08.8', f, x.get('ln', f.ln), overwriting or empty_start,
+                   'own type parameter bound by %s into a map that %s: an outer binding of the same parameter name must be replaced' % (
+                       how, 'starts empty' if empty_start else 'starts as a copy of the enclosing bindings (%s)' % SX.show(init)[:30]),
+                   key='subst:own-params-override:%s:%s' % (f.short, (f.sig or '')[:20]))
+            # positional agreement: parameter i is bound to argument i
+            ki = [y for y in SX.walk(key) if y['k'] == 'index']
+            vi = [y for y in SX.walk(val)] if SX.is_node(val) else []
+            same = bool(ki) and any(y['k'] == 'index' and SX.show(y['i']) == SX.show(ki[0]['i']) for y in vi)
+            chk.ob('R08.8', f, x.get('ln', f.ln), same, 'type parameter i is bound to type argument i (key %s, value %s)' % (SX.show(key)[:40], SX.show(val)[:30] if SX.is_node(val) else '?'),
+                   key='subst:positional:%s:%s' % (f.short, (f.sig or '')[:20]))
+    chk.count('bindings of template parameters in specialisation', n, 2)
